@@ -3,6 +3,7 @@ package rules
 import (
 	"go/token"
 	"go/types"
+	"sort"
 	"strings"
 
 	"golang.org/x/tools/go/ssa"
@@ -197,33 +198,46 @@ func c17(c *core.Ctx, r *core.Report) {
 				continue
 			}
 			for k, v := range an.LiteralFields(lit) {
-				d := an.D().Of(v)
+				src := feedOf(v)
+				d := src.String()
 				switch k {
 				case "Min":
-					r.Check(strings.HasSuffix(d, "Load($i.min)"), "Snapshot#Min", an.Pos(c, ret), "Min ← min", "Snapshot.Min is fed from "+d)
+					r.Check(src.only("min") && len(src.ops) == 0, "Snapshot#Min", an.Pos(c, ret), "Min ← min", "Snapshot.Min is fed from "+d)
 				case "Max":
-					r.Check(strings.HasSuffix(d, "Load($i.max)"), "Snapshot#Max", an.Pos(c, ret), "Max ← max", "Snapshot.Max is fed from "+d)
+					r.Check(src.only("max") && len(src.ops) == 0, "Snapshot#Max", an.Pos(c, ret), "Max ← max", "Snapshot.Max is fed from "+d)
 				case "Count":
-					r.Check(strings.HasSuffix(d, "average($i)#1"), "Snapshot#Count", an.Pos(c, ret), "Count ← count", "Snapshot.Count is fed from "+d)
+					r.Check(src.only("count") && len(src.ops) == 0 && src.constsWithin("0"), "Snapshot#Count", an.Pos(c, ret), "Count ← count", "Snapshot.Count is fed from "+d)
 				case "Average":
-					r.Check(strings.HasSuffix(d, "average($i)#0"), "Snapshot#Average", an.Pos(c, ret), "Average ← sum/count", "Snapshot.Average is fed from "+d)
+					okk := len(src.quos) > 0 && src.constsWithin("0") && len(src.ops) == 1
+					guard := true
+					for _, q := range src.quos {
+						nx, dx := feedOf(q.X), feedOf(q.Y)
+						if !nx.only("sum") || len(nx.ops) != 0 || !dx.only("count") || len(dx.ops) != 0 {
+							okk = false
+						}
+						g := false
+						for _, gd := range an.GuardsOf(q.Block()) {
+							bo, ok := gd.Cond.(*ssa.BinOp)
+							if !ok {
+								continue
+							}
+							x, y := bo.X, bo.Y
+							if _, isK := x.(*ssa.Const); isK {
+								x, y = y, x
+							}
+							k, isK := y.(*ssa.Const)
+							if !isK || k.Value == nil || k.Value.String() != "0" || !feedOf(gd.T(x)).only("count") {
+								continue
+							}
+							if (bo.Op == token.EQL && !gd.Polarity) || (bo.Op == token.NEQ && gd.Polarity) || (bo.Op == token.GTR && gd.Polarity) {
+								g = true
+							}
+						}
+						guard = guard && g
+					}
+					r.Check(okk && guard, "Snapshot#Average", an.Pos(c, ret), "Average ← sum/count under count != 0 (0 otherwise)", "Snapshot.Average is fed from "+d+sprintf(" (zero-count guard: %v)", guard))
 				}
 			}
-		}
-		avg := c.MustFn(ppkg, "IterationDurations.average")
-		for _, ret := range an.Returns(avg) {
-			d0, d1 := an.D().Of(ret.Results[0]), an.D().Of(ret.Results[1])
-			if d0 == "0" && d1 == "0" {
-				continue
-			}
-			okk := strings.Contains(d0, "Load($i.sum) / ") && strings.Contains(d0, "Load($i.count)") && strings.HasSuffix(d1, "Load($i.count)")
-			guard := false
-			for _, g := range an.GuardsOf(ret.Block()) {
-				if gd := an.D().Of(g.Cond); strings.Contains(gd, "Load($i.count) == 0") && !g.Polarity {
-					guard = true
-				}
-			}
-			r.Check(okk && guard, "average#mean", an.Pos(c, ret), "mean = sum/count under count != 0", "the mean is "+d0+" with count "+d1+sprintf(" (zero-count guard: %v)", guard))
 		}
 	})
 
@@ -270,7 +284,7 @@ func c17(c *core.Ctx, r *core.Report) {
 					if call, ok := in.(ssa.CallInstruction); ok {
 						t := an.Callee(call)
 						if t != nil && t.Pkg != nil && t.Pkg.Pkg.Path() == "sync/atomic" && t.Name() == "Store" {
-							if f := an.FieldOfAddr(call.Common().Args[0]); f != nil && f.Name() == "min" && an.D().Of(call.Common().Args[0]) == "$i.min" {
+							if f := an.FieldOfAddr(call.Common().Args[0]); f != nil && f.Name() == "min" && an.Strip(call.Common().Args[0].(*ssa.FieldAddr).X) == ssa.Value(upd.Params[0]) {
 								store, val = in, call.Common().Args[1]
 							}
 						}
@@ -305,4 +319,110 @@ func c17(c *core.Ctx, r *core.Report) {
 		}
 		r.Floor("paths storing the lifetime minimum", n, 1)
 	})
+}
+
+// feed describes where a value comes from: which accumulator fields are loaded, which constants and which
+// arithmetic is involved — through conversions, phis, locals and helpers of the module.
+type feed struct {
+	fields map[string]bool
+	consts map[string]bool
+	ops    map[string]bool
+	quos   []*ssa.BinOp
+	other  []string
+}
+
+func (f *feed) only(field string) bool {
+	return len(f.fields) == 1 && f.fields[field] && len(f.other) == 0
+}
+
+func (f *feed) constsWithin(allowed ...string) bool {
+	for k := range f.consts {
+		ok := false
+		for _, a := range allowed {
+			if a == k {
+				ok = true
+			}
+		}
+		if !ok {
+			return false
+		}
+	}
+	return true
+}
+
+func (f *feed) String() string {
+	var parts []string
+	for k := range f.fields {
+		parts = append(parts, "load("+k+")")
+	}
+	for k := range f.consts {
+		parts = append(parts, k)
+	}
+	for k := range f.ops {
+		parts = append(parts, "op"+k)
+	}
+	parts = append(parts, f.other...)
+	sort.Strings(parts)
+	return "{" + strings.Join(parts, ", ") + "}"
+}
+
+func feedOf(v ssa.Value) *feed {
+	f := &feed{fields: map[string]bool{}, consts: map[string]bool{}, ops: map[string]bool{}}
+	seen := map[ssa.Value]bool{}
+	var walk func(v ssa.Value, depth int)
+	walk = func(v ssa.Value, depth int) {
+		v = an.Strip(v)
+		if v == nil || seen[v] {
+			return
+		}
+		seen[v] = true
+		switch x := v.(type) {
+		case *ssa.Const:
+			if x.Value != nil {
+				f.consts[x.Value.String()] = true
+			} else {
+				f.consts["zero"] = true
+			}
+		case *ssa.Phi:
+			for _, e := range x.Edges {
+				walk(e, depth)
+			}
+		case *ssa.BinOp:
+			f.ops[x.Op.String()] = true
+			if x.Op == token.QUO {
+				f.quos = append(f.quos, x)
+			}
+			walk(x.X, depth)
+			walk(x.Y, depth)
+		case *ssa.Extract:
+			call, ok := x.Tuple.(*ssa.Call)
+			t := an.Callee(call)
+			if !ok || t == nil || t.Blocks == nil || !core.InModule(t) || depth <= 0 {
+				f.other = append(f.other, an.D().Of(v))
+				return
+			}
+			for _, ret := range an.Returns(t) {
+				walk(ret.Results[x.Index], depth-1)
+			}
+		case *ssa.Call:
+			t := an.Callee(x)
+			if t != nil && t.Pkg != nil && t.Pkg.Pkg.Path() == "sync/atomic" && t.Name() == "Load" {
+				if fld := an.FieldOfAddr(x.Call.Args[0]); fld != nil {
+					f.fields[fld.Name()] = true
+					return
+				}
+			}
+			if t != nil && t.Blocks != nil && core.InModule(t) && depth > 0 && t.Signature.Results().Len() == 1 {
+				for _, ret := range an.Returns(t) {
+					walk(ret.Results[0], depth-1)
+				}
+				return
+			}
+			f.other = append(f.other, an.D().Of(v))
+		default:
+			f.other = append(f.other, an.D().Of(v))
+		}
+	}
+	walk(v, flatDepth)
+	return f
 }
